@@ -5,7 +5,7 @@ ROOT = os.path.dirname(os.path.dirname(os.path.abspath(__file__)))
 
 CLAIMS = {
  "C01": dict(
-  text="Structural necessary conditions of 'shaping is total', decided on all paths of all functions: every recursive SCC has a re-derived termination argument and recursion in loops a shared work budget (R-REC); every writer of Buffer.Info re-sizes Buffer.Pos or is confined to an output-mode bracket that is closed on all paths, and the re-sync takes its length from len(Info) (R-SYNC); the operation/length budgets are initialised from the input length before any reader runs and tested in the lookup loop (R-BUDGET). Does not decide cluster accounting, loop termination or other index arithmetic.",
+  text="Structural necessary conditions of 'shaping is total', decided on all paths of all functions: every recursive SCC has a re-derived termination argument and recursion in loops a shared work budget (R-REC); every writer of Buffer.Info re-sizes Buffer.Pos or is confined to an output-mode bracket that is closed on all paths, and the re-sync takes its length from len(Info) (R-SYNC); the operation/length budgets are initialised from the input length before any reader runs and tested in the lookup loop (R-BUDGET); integer divisors are provably non-zero (R-DIV); every array access indexed by a Coverage index is bounded by a test in its function or by a loader comparison of len(<that field>) with <that coverage>.Len(), matched by field identity, one obligation per call site when the array is a parameter (R-COVIDX, 22 accesses); and the slice accesses of package harfbuzz whose bounds were locally derivable when the set was frozen (132 function/field keys, among them the tests on font-supplied lookup, mark-set and nested-lookup indices) are still derivable (R-IDX, a regression rule). Does not decide cluster accounting, loop termination, or index arithmetic that rests on buffer invariants.",
   note="VTA call graph over-approximates dynamic calls; stdlib and x/text are not analysed; guards are recognised as SSA comparisons of the counter with a bound",
   technique="static analysis: call-graph SCC inventory + CFG path rules (edge dominance, must-precede/must-follow) on go/ssa",
   ref="DESIGN.md §4 C01"),
@@ -45,7 +45,7 @@ CLAIMS = {
   technique="static analysis: CFG must-follow with propagation to callers, must-precede under an assumed flag on go/ssa",
   ref="DESIGN.md §4 C12"),
  "C09": dict(
-  text="Structural necessary conditions of 'font loading is total', decided over the whole module: (R-REC) every recursive SCC has a re-derived termination argument and recursion in loops a shared work budget; (R-ALLOC) every make in the font-reading packages whose size has a 32/64-bit file value in its backward slice is guarded by a comparison on that value whose other edge returns a definite error (the capacity idiom is not a guard); (R-COUNT) every signed count parameter that sizes a make without a sign test receives, at every in-module call site, an argument that is provably non-negative (unsigned conversions, len/cap, guarded differences, clamped phis, fields and callee results with the same property); (R-GEN) in the five font-reading packages every index, slice and binary.*.UintN access to a []byte follows, by linear arithmetic over the length tests that dominate it, from those tests (upper bounds and non-negative lower bounds; 331 functions decided, 35 listed with a reason as not claimed because the argument is non-linear or spans sibling functions); (R-LOOP) data-driven loops have a counted exit; (R-DIV) divisors are provably non-zero. A guard whose operand is computed by a wrapping 32-bit operation does not count unless the allocation is sized by the wrapped value. Known findings: composite-glyph fan-out, findTableBuffer. Index panics on parsed (non-byte) structures and general loop termination are NOT decided.",
+  text="Structural necessary conditions of 'font loading is total', decided over the whole module: (R-REC) every recursive SCC has a re-derived termination argument and recursion in loops a shared work budget; (R-ALLOC) every make in the font-reading packages whose size has a 32/64-bit file value in its backward slice is guarded by a comparison on that value whose other edge returns a definite error (the capacity idiom is not a guard); (R-COUNT) every signed count parameter that sizes a make without a sign test receives, at every in-module call site, an argument that is provably non-negative (unsigned conversions, len/cap, guarded differences, clamped phis, fields and callee results with the same property); (R-GEN) in the five font-reading packages every index, slice and binary.*.UintN access to a []byte follows, by linear arithmetic over the length tests that dominate it, from those tests (upper bounds and non-negative lower bounds; 331 functions decided, 35 listed with a reason as not claimed because the argument is non-linear or spans sibling functions); (R-LOOP) data-driven loops have a counted exit; (R-DIV) divisors are provably non-zero. A guard whose operand is computed by a wrapping 32-bit operation does not count unless the allocation is sized by the wrapped value. (R-IDX) the accesses to slices of any element type in hand-written font code whose bounds were locally derivable when the set was frozen (231 function/field keys) are still derivable. Known findings: composite-glyph fan-out, findTableBuffer. Index panics on parsed (non-byte) structures and general loop termination are NOT decided.",
   note="64-bit int assumed for unsigned-to-int conversions; 16-bit sizes are bounded by type; stdlib decoders (zlib, png, ...) trusted",
   technique="static analysis: call-graph SCC inventory, backward value slices and CFG edge-dominance on go/ssa, interprocedural sign analysis, linear length-fact prover (P-LIN) over dominating comparisons",
   ref="DESIGN.md §4 C09"),
